@@ -32,10 +32,10 @@ import (
 	"github.com/openbao/openbao/sdk/v2/framework"
 	"github.com/openbao/openbao/sdk/v2/helper/locksutil"
 	"github.com/openbao/openbao/sdk/v2/helper/salt"
-	"github.com/openbao/openbao/v2/internal/vault/routing"
 	"github.com/openbao/openbao/sdk/v2/logical"
 	"github.com/openbao/openbao/v2/internal/helper/namespace"
 	"github.com/openbao/openbao/v2/internal/vault/barrier"
+	"github.com/openbao/openbao/v2/internal/vault/routing"
 )
 
 type vxLogger struct{ log.Logger }
@@ -179,7 +179,9 @@ func (v *vxView) Prefix() string                { return v.kind + "/" }
 func (v *vxView) SubView(p string) barrier.View { return &vxSubView{vxView: *v, prefix: p} }
 func (v *vxView) SetReadOnlyErr(error)          {}
 func (v *vxView) GetReadOnlyErr() error         { return nil }
-func (v *vxView) Get(ctx context.Context, k string) (*logical.StorageEntry, error) { return nil, vxStep() }
+func (v *vxView) Get(ctx context.Context, k string) (*logical.StorageEntry, error) {
+	return nil, vxStep()
+}
 func (v *vxView) Put(ctx context.Context, e *logical.StorageEntry) error {
 	if err := vxStep(); err != nil {
 		return err
@@ -269,8 +271,12 @@ func vxNSID(ns *namespace.Namespace) string {
 	}
 	return ns.ID
 }
-func vxIDView(ts *TokenStore, ns *namespace.Namespace) barrier.View     { return &vxView{kind: "id", ns: vxNSID(ns)} }
-func vxParentView(ts *TokenStore, ns *namespace.Namespace) barrier.View { return &vxView{kind: "parent", ns: vxNSID(ns)} }
+func vxIDView(ts *TokenStore, ns *namespace.Namespace) barrier.View {
+	return &vxView{kind: "id", ns: vxNSID(ns)}
+}
+func vxParentView(ts *TokenStore, ns *namespace.Namespace) barrier.View {
+	return &vxView{kind: "parent", ns: vxNSID(ns)}
+}
 func vxAccessorView(ts *TokenStore, ns *namespace.Namespace) barrier.View {
 	return &vxView{kind: "accessor", ns: vxNSID(ns)}
 }
@@ -448,13 +454,20 @@ func VxChildCreateRacesTreeRevoke() {
 // keys requests of that token) was cleared ----
 
 var vxCleared []string
+var vxClearedNS []string // "<namespace id>|<prefix>"
 
 func vxCubbyStorage(r *routing.Router, ctx context.Context, path string) logical.Storage {
-	return &vxView{kind: "cubby"}
+	v := &vxView{kind: "cubby"}
+	if ns, err := namespace.FromContext(ctx); err == nil {
+		v.ns = ns.ID // every namespace has its own cubbyhole mount
+	}
+	return v
 }
 
 // assumption: the salt function is injective
-func vxSaltFn(saltVal, id string, hash salt.HashFunc) string { return "salt(" + saltVal + "," + id + ")" }
+func vxSaltFn(saltVal, id string, hash salt.HashFunc) string {
+	return "salt(" + saltVal + "," + id + ")"
+}
 
 type vxSubView struct {
 	vxView
@@ -466,6 +479,7 @@ func (v *vxSubView) Prefix() string { return v.prefix }
 func vxClearView(ctx context.Context, view logical.ClearableView) error {
 	if sv, ok := view.(*vxSubView); ok {
 		vxCleared = append(vxCleared, sv.prefix)
+		vxClearedNS = append(vxClearedNS, sv.ns+"|"+sv.prefix)
 	}
 	return vxStep()
 }
@@ -500,4 +514,29 @@ func VxDestroyCubbyhole() {
 	vxReach("cubbyhole: destroyed")
 	vxAssert("cubbyhole destroy succeeds", err == nil)
 	vxAssert("success means the storage under the token's cubbyhole key was cleared", len(vxCleared) == 1 && vxCleared[0] == want)
+}
+
+// a token may be used in its own namespace and in every namespace below it, and each namespace has its own cubbyhole
+// mount: wherever the token wrote cubbyhole data, revoking it must remove that data ("unreachable AND removed").
+// The real destroyCubbyhole is called the way revokeInternal calls it (context = the token's namespace).
+func VxCubbyholeRemovedWhereverTheTokenWrote() {
+	ts := vxTokenStore()
+	ts.core = &Core{router: &routing.Router{}}
+	ts.cubbyholeBackend = &CubbyholeBackend{saltUUID: "u"}
+	vxW = &vxWorld{failAt: -1}
+	vxCleared, vxClearedNS = nil, nil
+	te := &logical.TokenEntry{ID: "s.abcdef", NamespaceID: namespace.RootNamespaceID, CubbyholeID: "cid-1"}
+	wroteOwn := vxBool("the token wrote cubbyhole data in its own namespace")
+	wroteChild := vxBool("the token wrote cubbyhole data in a child namespace it was used in")
+	vxAssume(wroteOwn || wroteChild)
+	err := destroyCubbyhole(namespace.RootContext(context.Background()), ts, te)
+	vxAssert("cubbyhole destroy succeeds", err == nil)
+	if wroteOwn {
+		vxReach("cubbyhole: data in the token's own namespace")
+		vxAssert("the token's cubbyhole in its own namespace is removed", vxHas(vxClearedNS, namespace.RootNamespaceID+"|cid-1/"))
+	}
+	if wroteChild {
+		vxReach("cubbyhole: data in a child namespace")
+		vxAssert("the token's cubbyhole in a child namespace it was used in is removed as well", vxHas(vxClearedNS, "n1|cid-1/"))
+	}
 }
